@@ -176,7 +176,7 @@ impl<'a> PrettyPrinter<'a> {
                 }
                 _ => {
                     if let Some(arg) = child.cast::<Arg>() {
-                        if is_ends_with_hashed_expr(arg.to_untyped().children()) {
+                        if is_ends_with_hashed_expr(arg.to_untyped()) {
                             peek_hashed_arg = true;
                         }
                         FlowItem::spaced(self.convert_arg(ctx, arg))
@@ -231,9 +231,16 @@ impl<'a> PrettyPrinter<'a> {
     }
 }
 
-fn is_ends_with_hashed_expr(mut children: std::slice::Iter<'_, SyntaxNode>) -> bool {
-    children.next_back().is_some_and(|it| it.is::<Expr>())
+/// Whether the text of the node ends with a hashed expression, at any depth (e.g. `x #f()` or a
+/// matrix row `a, b #f()`), so that a directly following semicolon would terminate that expression.
+fn is_ends_with_hashed_expr(node: &SyntaxNode) -> bool {
+    let mut children = node.children();
+    let Some(last) = children.next_back() else {
+        return false;
+    };
+    (last.is::<Expr>()
         && children
             .next_back()
-            .is_some_and(|it| it.kind() == SyntaxKind::Hash)
+            .is_some_and(|it| it.kind() == SyntaxKind::Hash))
+        || is_ends_with_hashed_expr(last)
 }
